@@ -713,10 +713,76 @@ theorem ceLen_eq (z : Zone) (q : Name) (K : Nat) (hin : z.inTree (q.take K) = tr
       simp only [this, Bool.false_eq_true, if_false]
       exact ih (by omega) (fun k h1 h2 => hnot k h1 (by omega))
 
+/-- what `ceLen` returns, independently of any NSEC: the longest proper
+ancestor (among those with fewer than `fuel` labels) that is in the tree. -/
+theorem ceLen_spec (z : Zone) (q : Name) : ∀ fuel,
+    (∀ k, z.ceLen q fuel < k → k < fuel → z.inTree (q.take k) = false) ∧
+    (z.inTree (q.take (z.ceLen q fuel)) = true ∨ z.ceLen q fuel = 0) ∧ z.ceLen q fuel ≤ fuel - 1 := by
+  intro fuel
+  induction fuel with
+  | zero => exact ⟨fun k _ h => by omega, Or.inr rfl, by simp [Zone.ceLen]⟩
+  | succ f ih =>
+    unfold Zone.ceLen
+    by_cases hin : z.inTree (q.take f) = true
+    · rw [if_pos hin]
+      exact ⟨fun k h1 h2 => by omega, Or.inl hin, by omega⟩
+    · simp only [hin, Bool.false_eq_true, if_false]
+      refine ⟨?_, ih.2.1, by have := ih.2.2; omega⟩
+      intro k h1 h2
+      by_cases hk : k = f
+      · subst hk; simpa using hin
+      · exact ih.1 k h1 (by omega)
+
 /-- the cap-and-max expression both Go closest-encloser helpers compute. -/
 def ceK (q o n : Name) : Nat :=
   let l := max (lcp q o) (lcp q n)
   if l ≥ q.length then q.length - 1 else l
+
+theorem InGap.ce_bounds {z : Zone} (hz : z.WF) {o n q : Name} (h : InGap z o n q) (hq : z.apex <+: q) :
+    z.apex.length ≤ ceK q o n ∧ ceK q o n < q.length ∧ (ceK q o n ≤ lcp q o ∨ ceK q o n ≤ lcp q n) := by
+  have hqne := h.ne_apex hz
+  have hlen : z.apex.length < q.length := by
+    rcases Nat.lt_or_ge z.apex.length q.length with h' | h'
+    · exact h'
+    · exact absurd (hq.eq_of_length (Nat.le_antisymm hq.length_le h')).symm hqne
+  have hapo : z.apex.length ≤ lcp q o := lcp_ge_of_common_prefix z.apex q o hq (auth_in_zone hz h.owner)
+  unfold ceK; simp only
+  split <;> omega
+
+/-- the name the Go helpers compute is in the zone's tree … -/
+theorem InGap.ce_inTree {z : Zone} (hz : z.WF) {o n q : Name} (h : InGap z o n q) (hq : z.apex <+: q) :
+    z.inTree (q.take (ceK q o n)) = true := by
+  obtain ⟨hKge, _, hKle⟩ := h.ce_bounds hz hq
+  rw [inTree_iff hz]
+  constructor
+  · rw [List.prefix_take_iff]; exact ⟨hq, hKge⟩
+  · rcases hKle with hk | hk
+    · exact ⟨o, h.owner, (List.take_prefix_take_left hk).trans (lcp_take_prefix_right q o)⟩
+    · exact ⟨n, h.next, (List.take_prefix_take_left hk).trans (lcp_take_prefix_right q n)⟩
+
+/-- … and no longer proper ancestor of `q` is. -/
+theorem InGap.ce_longest {z : Zone} (hz : z.WF) {o n q : Name} (h : InGap z o n q) :
+    ∀ k, ceK q o n < k → k < q.length → z.inTree (q.take k) = false := by
+  intro k hk1 hk2
+  cases hin : z.inTree (q.take k) with
+  | false => rfl
+  | true =>
+    exfalso
+    obtain ⟨_, m, hm, hpre⟩ := (inTree_iff hz _).mp hin
+    have hpq : q.take k <+: q := List.take_prefix _ _
+    have hplen : (q.take k).length = k := by rw [List.length_take]; omega
+    have hL : max (lcp q o) (lcp q n) < k := by
+      unfold ceK at hk1; simp only at hk1
+      split at hk1 <;> omega
+    rcases h.side m hm with h1 | ⟨_, h2, h3⟩
+    · have hoq : cmpName o q ≠ .gt := by rw [h.lt]; decide
+      have := prefix_convex lawful_cmpLabel (q.take k) m o q hpre hpq h1 hoq
+      have := lcp_ge_of_common_prefix _ q o hpq this
+      omega
+    · have hqn : cmpName q n ≠ .gt := by rw [h3]; decide
+      have := prefix_convex lawful_cmpLabel (q.take k) q n m hpq hpre hqn h2
+      have := lcp_ge_of_common_prefix _ q n hpq this
+      omega
 
 /-- **Closest encloser from a covering NSEC**: in a gap of the genuine chain
 the longest proper ancestor of `q` that is in the zone's tree has exactly
@@ -725,43 +791,7 @@ theorem InGap.closestEncloser {z : Zone} (hz : z.WF) {o n q : Name} (h : InGap z
     z.closestEncloser q = q.take (ceK q o n) := by
   unfold Zone.closestEncloser
   congr 1
-  have hqne := h.ne_apex hz
-  have hlen : z.apex.length < q.length := by
-    rcases Nat.lt_or_ge z.apex.length q.length with h' | h'
-    · exact h'
-    · exact absurd (hq.eq_of_length (Nat.le_antisymm hq.length_le h')).symm hqne
-  have hapo : z.apex.length ≤ lcp q o := lcp_ge_of_common_prefix z.apex q o hq (auth_in_zone hz h.owner)
-  have hKlt : ceK q o n < q.length := by unfold ceK; simp only; split <;> omega
-  have hKge : z.apex.length ≤ ceK q o n := by unfold ceK; simp only; split <;> omega
-  have hKle : ceK q o n ≤ lcp q o ∨ ceK q o n ≤ lcp q n := by
-    unfold ceK; simp only; split <;> omega
-  refine ceLen_eq z q (ceK q o n) ?_ q.length hKlt ?_
-  · rw [inTree_iff hz]
-    constructor
-    · rw [List.prefix_take_iff]; exact ⟨hq, hKge⟩
-    · rcases hKle with hk | hk
-      · exact ⟨o, h.owner, (List.take_prefix_take_left hk).trans (lcp_take_prefix_right q o)⟩
-      · exact ⟨n, h.next, (List.take_prefix_take_left hk).trans (lcp_take_prefix_right q n)⟩
-  · intro k hk1 hk2
-    cases hin : z.inTree (q.take k) with
-    | false => rfl
-    | true =>
-      exfalso
-      obtain ⟨_, m, hm, hpre⟩ := (inTree_iff hz _).mp hin
-      have hpq : q.take k <+: q := List.take_prefix _ _
-      have hplen : (q.take k).length = k := by rw [List.length_take]; omega
-      have hL : max (lcp q o) (lcp q n) < k := by
-        unfold ceK at hk1; simp only at hk1
-        split at hk1 <;> omega
-      rcases h.side m hm with h1 | ⟨_, h2, h3⟩
-      · have hoq : cmpName o q ≠ .gt := by rw [h.lt]; decide
-        have := prefix_convex lawful_cmpLabel (q.take k) m o q hpre hpq h1 hoq
-        have := lcp_ge_of_common_prefix _ q o hpq this
-        omega
-      · have hqn : cmpName q n ≠ .gt := by rw [h3]; decide
-        have := prefix_convex lawful_cmpLabel (q.take k) q n m hpq hpre hqn h2
-        have := lcp_ge_of_common_prefix _ q n hpq this
-        omega
+  exact ceLen_eq z q (ceK q o n) (h.ce_inTree hz hq) q.length (h.ce_bounds hz hq).2.1 (h.ce_longest hz)
 
 theorem closestEncloserFromNSEC_eq (q : Name) (r : Nsec) :
     closestEncloserFromNSEC q r = q.take (ceK q r.owner r.next) := rfl
@@ -774,33 +804,23 @@ theorem closestEncloserFromAggressiveNSEC_eq (q : Name) (r : Nsec) (hq : q.lengt
 
 /-! ### E. bitmaps, answer classes -/
 
-theorem typesSet_single (b : List Nat) (x : Nat) : typesSet b [x] = b.contains x := by
+theorem typesSet_iff (b ts : List Nat) : typesSet b ts = true ↔ ∃ x ∈ b, x ∈ ts := by
   unfold typesSet
-  induction b with
-  | nil => simp
-  | cons y t ih =>
-    simp only [List.any_cons, ih, List.contains_cons]
-    congr 1
-    simp [List.contains, List.elem, eq_comm]
+  simp [List.any_eq_true]
+
+theorem typesSet_single (b : List Nat) (x : Nat) : typesSet b [x] = b.contains x := by
+  rw [Bool.eq_iff_iff, typesSet_iff]
+  simp
 
 theorem typesSet_pair_false (b : List Nat) (x y : Nat) :
-    typesSet b [x, y] = false ↔ b.contains x = false ∧ b.contains y = false := by
-  unfold typesSet
-  induction b with
-  | nil => simp
-  | cons z t ih =>
-    simp only [List.any_cons, Bool.or_eq_false_iff, ih, List.contains_cons]
-    have : ([x, y].contains z = false) ↔ ((x == z) = false ∧ (y == z) = false) := by
-      simp only [List.contains_cons, List.contains_nil, Bool.or_false, Bool.or_eq_false_iff]
-      constructor
-      · rintro ⟨h1, h2⟩
-        exact ⟨by simpa [eq_comm] using h1, by simpa [eq_comm] using h2⟩
-      · rintro ⟨h1, h2⟩
-        exact ⟨by simpa [eq_comm] using h1, by simpa [eq_comm] using h2⟩
-    rw [this]
-    constructor
-    · rintro ⟨⟨h1, h2⟩, h3, h4⟩; exact ⟨⟨h1, h3⟩, h2, h4⟩
-    · rintro ⟨⟨h1, h3⟩, h2, h4⟩; exact ⟨⟨h1, h2⟩, h3, h4⟩
+    typesSet b [x, y] = false ↔ x ∉ b ∧ y ∉ b := by
+  rw [← Bool.not_eq_true, typesSet_iff]
+  simp only [List.mem_cons, List.not_mem_nil, or_false, not_exists, not_and, not_or]
+  constructor
+  · intro h
+    exact ⟨fun hx => (h x hx).1 rfl, fun hy => (h y hy).2 rfl⟩
+  · rintro ⟨h1, h2⟩ w hw
+    exact ⟨fun e => h1 (e ▸ hw), fun e => h2 (e ▸ hw)⟩
 
 theorem aggDeleg_eq (b : List Nat) : aggressiveDelegationBitmap b = delegTypes b := by
   unfold aggressiveDelegationBitmap delegTypes
@@ -834,8 +854,8 @@ theorem answerClass_ent (z : Zone) (q : Name) (t : Nat) (hq : z.apex <+: q) (hne
   have h2 : (q == z.apex) = false := by simpa using hne
   simp [h1, h2, hocc, hfind, hent]
 
-theorem answerAt_nodata (a : Node) (t : Nat) (h1 : a.types.contains t = false)
-    (h2 : a.types.contains tCNAME = false) : answerAt a t = .nodata := by
+theorem answerAt_nodata (a : Node) (t : Nat) (h1 : t ∉ a.types)
+    (h2 : tCNAME ∉ a.types) : answerAt a t = .nodata := by
   unfold answerAt; simp [h1, h2]
 
 theorem answerClass_wild (z : Zone) (q : Name) (t : Nat) (hq : z.apex <+: q) (hne : q ≠ z.apex)
@@ -859,8 +879,8 @@ theorem answerClass_wild_ent (z : Zone) (q : Name) (t : Nat) (hq : z.apex <+: q)
 respecting the DS/SOA parent-side rule and not a delegation point (unless
 the question is DS). -/
 theorem answerClass_exact_nodata {z : Zone} (hz : z.WF) {a : Node} (ha : a ∈ z.auth) (t : Nat)
-    (h1 : a.types.contains t = false) (h2 : a.types.contains tCNAME = false)
-    (hds : t = tDS → a.types.contains tSOA = false)
+    (h1 : t ∉ a.types) (h2 : tCNAME ∉ a.types)
+    (hds : t = tDS → tSOA ∉ a.types)
     (hdel : t = tDS ∨ delegTypes a.types = false) : z.answerClass a.name t = .nodata := by
   have hin : z.apex <+: a.name := hz.in_zone a ((mem_auth z a).mp ha).1
   have hocc := ((mem_auth z a).mp ha).2
@@ -876,14 +896,589 @@ theorem answerClass_exact_nodata {z : Zone} (hz : z.WF) {a : Node} (ha : a ∈ z
       obtain ⟨n, hn, hname, hsoa⟩ := hz.apex_soa
       have : a = n := node_unique hz ((mem_auth z a).mp ha).1 hn (hda.1.trans hname.symm)
       subst this
-      have := hds hda.2
-      rw [List.contains_iff_mem.mpr hsoa] at this
-      cases this
+      exact hds hda.2 hsoa
   have e3 : (delegTypes a.types && t != tDS) = false := by
     rcases hdel with rfl | h
     · simp
     · simp [h]
   simp only [e1, Bool.not_true, Bool.false_eq_true, if_false, e2, hocc, hfind, e3]
   exact answerAt_nodata a t h1 h2
+
+
+/-! ### F. the exact validators over genuine records -/
+
+/-- the record sets the property quantifies over: any sub-multiset of the
+zone's genuine chain, in any order, polluted with records that are not the
+signer zone's (owner or next name outside it). -/
+def SetOK (z : Zone) (s : List Nsec) : Prop :=
+  ∀ r ∈ s, r ∈ z.chain ∨ ¬(z.apex <+: r.owner ∧ z.apex <+: r.next)
+
+theorem filter_genuine {z : Zone} (hz : z.WF) {s : List Nsec} (hs : SetOK z s) :
+    ∀ r ∈ filterToZone z.apex s, Genuine z r := by
+  intro r hr
+  unfold filterToZone at hr
+  simp only [List.mem_filter, nameInZone, Bool.and_eq_true, List.isPrefixOf_iff_prefix] at hr
+  rcases hs r hr.1 with h | h
+  · exact chain_genuine hz h
+  · exact absurd hr.2 h
+
+theorem apex_prefix_take {z : Zone} {q : Name} (hq : z.apex <+: q) {k : Nat} (hk : z.apex.length ≤ k) :
+    z.apex <+: q.take k := by
+  rw [List.prefix_take_iff]; exact ⟨hq, hk⟩
+
+theorem InGap.lcp_le_ceK {z : Zone} {o n q : Name} (h : InGap z o n q) : lcp q o ≤ ceK q o n := by
+  have := lcp_le_left q o
+  unfold ceK; simp only
+  split
+  · rcases Nat.lt_or_ge (lcp q o) q.length with h1 | h1
+    · omega
+    · exfalso
+      have hfull : lcp q o = q.length := by omega
+      have hpre : q <+: o := by
+        have := lcp_take_prefix_right q o
+        rwa [hfull, List.take_length] at this
+      have := cmpList_prefix_ne_gt lawful_cmpLabel hpre
+      exact this ((lawful_cmpName.gt_iff _ _).mpr h.lt)
+  · omega
+
+/-- the wildcard at the closest encloser is an in-zone name. -/
+theorem InGap.wild_in_zone {z : Zone} (hz : z.WF) {o n q : Name} (h : InGap z o n q) (hq : z.apex <+: q) :
+    z.apex <+: q.take (ceK q o n) ++ [star] := by
+  exact (apex_prefix_take hq (h.ce_bounds hz hq).1).trans (List.prefix_append _ _)
+
+/-- **`VerifyNameErrorNSEC` over genuine records**, under the two record-level
+conditions the function does not test (RFC 6840 §4.1 ancestor delegation /
+DNAME, and the RFC 8198 App. B empty-non-terminal shape). -/
+theorem nameError_core {z : Zone} (hz : z.WF) (hroot : z.apex ≠ []) {s : List Nsec}
+    (hg : ∀ r ∈ s, Genuine z r) {q : Name} (hq : z.apex <+: q)
+    (hmis : ∀ r ∈ s, nsecCovers r.owner r.next q = true →
+      ¬(isStrictSub q r.owner = true ∧ cutTypes r.types = true) ∧ isStrictSub r.next q = false)
+    (hmisw : ∀ c ∈ s, nsecCovers c.owner c.next q = true → ∀ r ∈ s,
+      nsecCovers r.owner r.next (closestEncloserFromNSEC q c ++ [star]) = true →
+      isStrictSub r.next (closestEncloserFromNSEC q c ++ [star]) = false)
+    (t : Nat) (hok : verifyNameErrorNSEC q s = .ok ()) : z.answerClass q t = .nxdomain := by
+  unfold verifyNameErrorNSEC at hok
+  split at hok
+  · cases hok
+  · split at hok
+    · cases hok
+    · rename_i c hfind
+      have hcm := List.mem_of_find?_eq_some hfind
+      have hcc : nsecCovers c.owner c.next q = true := List.find?_some (p := fun (r : Nsec) => nsecCovers r.owner r.next q) hfind
+      have gap := covers_inGap hz (hg c hcm) hq hcc
+      have hce : z.closestEncloser q = closestEncloserFromNSEC q c := by
+        rw [closestEncloserFromNSEC_eq]; exact gap.closestEncloser hz hq
+      have hwz : z.apex <+: closestEncloserFromNSEC q c ++ [star] := by
+        rw [closestEncloserFromNSEC_eq]; exact gap.wild_in_zone hz hq
+      have hcene : closestEncloserFromNSEC q c ≠ [] := by
+        intro e
+        have := apex_prefix_take hq (gap.ce_bounds hz hq).1
+        rw [← closestEncloserFromNSEC_eq, e] at this
+        exact hroot (List.prefix_nil.mp this)
+      simp only [hcene, if_false] at hok
+      split at hok
+      · rename_i hany
+        obtain ⟨r, hr, hrc⟩ := List.any_eq_true.mp hany
+        have gapw := covers_inGap hz (hg r hr) hwz hrc
+        have hm := hmis c hcm hcc
+        -- q is not below a cut
+        have hocc : z.occluded q = false := by
+          cases ho : z.occluded q with
+          | false => rfl
+          | true =>
+            exfalso
+            obtain ⟨a, ha, han, hcut, hpre, hne⟩ := gap.occluded hz ho
+            have hty := (hg c hcm).types_of_node hz ha han
+            exact hm.1 ⟨(isStrictSub_iff q c.owner).mpr ⟨hpre, hne⟩, hty ▸ hcut⟩
+        have hent : z.isENT q = false := by
+          cases he : z.isENT q with
+          | false => rfl
+          | true => rw [(gap.isENT_iff hz hq).mp he] at hm; cases hm.2
+        have hwent : z.isENT (closestEncloserFromNSEC q c ++ [star]) = false := by
+          cases he : z.isENT (closestEncloserFromNSEC q c ++ [star]) with
+          | false => rfl
+          | true =>
+            have := hmisw c hcm hcc r hr hrc
+            rw [(gapw.isENT_iff hz hwz).mp he] at this; cases this
+        exact answerClass_nxdomain z q t hq (gap.ne_apex hz) hocc gap.find_none hent
+          (hce ▸ gapw.find_none) (hce ▸ hwent)
+      · cases hok
+
+theorem nodataBitmap_ok {t : Nat} {b : List Nat} (h : nodataBitmap t b = .ok ()) :
+    t ∉ b ∧ tCNAME ∉ b ∧ (t = tDS → tSOA ∉ b) := by
+  unfold nodataBitmap at h
+  split at h
+  · cases h
+  · rename_i h1
+    have h1' := (typesSet_pair_false b t tCNAME).mp (by simpa using h1)
+    split at h
+    · cases h
+    · rename_i h2
+      refine ⟨h1'.1, h1'.2, ?_⟩
+      intro ht hs
+      apply h2
+      simp only [Bool.and_eq_true, decide_eq_true_eq]
+      exact ⟨ht, (typesSet_iff b [tSOA]).mpr ⟨tSOA, hs, by simp⟩⟩
+
+/-- **`VerifyNODATANSEC` over genuine records**, under the one condition it
+does not test: the exact-owner record is not a delegation point's (RFC 6840
+§4.1) unless the question is DS. -/
+theorem nodata_core {z : Zone} (hz : z.WF) {s : List Nsec}
+    (hg : ∀ r ∈ s, Genuine z r) {q : Name} (hq : z.apex <+: q) (t : Nat)
+    (hdel : ∀ r ∈ s, r.owner = q → t = tDS ∨ delegTypes r.types = false)
+    (hok : verifyNODATANSEC q t s = .ok ()) : z.answerClass q t = .nodata := by
+  unfold verifyNODATANSEC at hok
+  split at hok
+  · cases hok
+  · split at hok
+    · -- exact owner
+      rename_i r hfind
+      have hrm := List.mem_of_find?_eq_some hfind
+      have hro : r.owner = q := by simpa using List.find?_some hfind
+      obtain ⟨h1, h2, h3⟩ := nodataBitmap_ok hok
+      obtain ⟨a, ha, han, hat⟩ := (hg r hrm).node
+      have := answerClass_exact_nodata hz ha t (hat ▸ h1) (hat ▸ h2) (fun e => hat ▸ h3 e)
+        (hat ▸ hdel r hrm hro)
+      rwa [han, hro] at this
+    · -- wildcard NODATA
+      split at hok
+      · cases hok
+      · rename_i c hfind
+        have hcm := List.mem_of_find?_eq_some hfind
+        have hcc : nsecCovers c.owner c.next q = true := List.find?_some (p := fun (r : Nsec) => nsecCovers r.owner r.next q) hfind
+        have gap := covers_inGap hz (hg c hcm) hq hcc
+        have hce : z.closestEncloser q = closestEncloserFromNSEC q c := by
+          rw [closestEncloserFromNSEC_eq]; exact gap.closestEncloser hz hq
+        simp only at hok
+        split at hok
+        · rename_i w hwfind
+          have hwm := List.mem_of_find?_eq_some hwfind
+          have hwo : w.owner = closestEncloserFromNSEC q c ++ [star] := by simpa using List.find?_some hwfind
+          obtain ⟨h1, h2, _⟩ := nodataBitmap_ok hok
+          obtain ⟨a, ha, han, hat⟩ := (hg w hwm).node
+          have hfw : z.find (z.closestEncloser q ++ [star]) = some a := by
+            rw [hce, ← hwo, ← han]; exact find_of_mem hz ha
+          -- q is not below a cut: the wildcard owner would be occluded too
+          have hocc : z.occluded q = false := by
+            cases ho : z.occluded q with
+            | false => rfl
+            | true =>
+              exfalso
+              obtain ⟨cn, hcn, hcnn, hcut, hpre, hne⟩ := gap.occluded hz ho
+              have hlt := (gap.ce_bounds hz hq).2.1
+              have hge := gap.lcp_le_ceK
+              have hlo : c.owner.length ≤ lcp q c.owner :=
+                lcp_ge_of_common_prefix c.owner q c.owner hpre (List.prefix_refl _)
+              have hpw : c.owner <+: a.name := by
+                rw [han, hwo, closestEncloserFromNSEC_eq]
+                exact (List.prefix_take_iff.mpr ⟨hpre, by omega⟩).trans (List.prefix_append _ _)
+              have hnew : c.owner ≠ a.name := by
+                intro e
+                have : a.name.length = ceK q c.owner c.next + 1 := by
+                  rw [han, hwo, closestEncloserFromNSEC_eq, List.length_append, List.length_take]
+                  simp; omega
+                rw [← e] at this; omega
+              have hoa := ((mem_auth z a).mp ha).2
+              have : z.occluded a.name = true :=
+                (occluded_iff z _).mpr ⟨cn, ((mem_auth z cn).mp hcn).1, hcut, hcnn ▸ hpw, hcnn ▸ hnew⟩
+              rw [hoa] at this; cases this
+          cases hent : z.isENT q with
+          | true => exact answerClass_ent z q t hq (gap.ne_apex hz) hocc gap.find_none hent
+          | false =>
+            rw [answerClass_wild z q t hq (gap.ne_apex hz) hocc gap.find_none hent hfw]
+            exact answerAt_nodata a t (hat ▸ h1) (hat ▸ h2)
+        · cases hok
+
+/-- **`VerifyDelegationNSEC` over genuine records** (full strength). -/
+theorem delegation_core {z : Zone} {s : List Nsec} (hg : ∀ r ∈ s, Genuine z r) {d : Name}
+    (hok : verifyDelegationNSEC d s = .ok ()) :
+    ∃ a ∈ z.auth, a.name = d ∧ delegTypes a.types = true ∧ tDS ∉ a.types := by
+  unfold verifyDelegationNSEC at hok
+  split at hok
+  · cases hok
+  · rename_i r hfind
+    have hrm := List.mem_of_find?_eq_some hfind
+    have hro : r.owner = d := by simpa using List.find?_some hfind
+    split at hok
+    · cases hok
+    · rename_i hns
+      split at hok
+      · cases hok
+      · rename_i hds
+        obtain ⟨a, ha, han, hat⟩ := (hg r hrm).node
+        refine ⟨a, ha, han.trans hro, ?_, ?_⟩
+        · rw [hat]
+          have h2 := (typesSet_pair_false r.types tDS tSOA).mp (by simpa using hds)
+          unfold delegTypes
+          rw [typesSet_single] at hns
+          simp only [Bool.not_eq_true, Bool.not_eq_false'] at hns
+          simp [List.contains_iff_mem.mp hns, h2.2]
+        · rw [hat]
+          exact ((typesSet_pair_false r.types tDS tSOA).mp (by simpa using hds)).1
+
+
+/-! ### G. the RFC 8198 classifier -/
+
+theorem addEntry_ok {qclass : Nat} {zone : Name} {acc acc' : List Entry} {e : Entry}
+    (h : addEntry qclass zone acc e = .ok acc') :
+    (∀ x ∈ acc', x ∈ acc ∨ x = e) ∧ e.r.cls = qclass ∧
+      nameInZone e.r.owner zone = true ∧ nameInZone e.r.next zone = true := by
+  unfold addEntry at h
+  split at h
+  · cases h
+  · rename_i hc
+    split at h
+    · cases h
+    · rename_i hz
+      split at h
+      · cases h
+      · have hcls : e.r.cls = qclass := by simpa using hc
+        have hzz : nameInZone e.r.owner zone = true ∧ nameInZone e.r.next zone = true := by
+          simpa using hz
+        split at h
+        · split at h
+          · cases h
+          · cases h; exact ⟨fun x hx => Or.inl hx, hcls, hzz⟩
+        · cases h
+          refine ⟨?_, hcls, hzz⟩
+          intro x hx
+          rcases List.mem_append.mp hx with hx | hx
+          · exact Or.inl hx
+          · exact Or.inr (List.mem_singleton.mp hx)
+
+theorem addEntries_ok {qclass : Nat} {zone : Name} : ∀ (l acc es : List Entry),
+    addEntries qclass zone acc l = .ok es →
+    ∀ x ∈ es, x ∈ acc ∨ (x ∈ l ∧ x.r.cls = qclass ∧
+      nameInZone x.r.owner zone = true ∧ nameInZone x.r.next zone = true) := by
+  intro l
+  induction l with
+  | nil => intro acc es h x hx; simp only [addEntries, Except.ok.injEq] at h; subst h; exact Or.inl hx
+  | cons e t ih =>
+    intro acc es h x hx
+    unfold addEntries at h
+    split at h
+    · cases h
+    · rename_i acc' hadd
+      obtain ⟨hsub, hc, ho, hn⟩ := addEntry_ok hadd
+      rcases ih acc' es h x hx with h1 | ⟨h1, h2⟩
+      · rcases hsub x h1 with h3 | rfl
+        · exact Or.inl h3
+        · exact Or.inr ⟨List.mem_cons_self .., hc, ho, hn⟩
+      · exact Or.inr ⟨List.mem_cons_of_mem _ h1, h2⟩
+
+theorem indexed_mem {e : Entry} : ∀ (l : List Nsec) (i : Nat), e ∈ indexed i l → e.r ∈ l := by
+  intro l
+  induction l with
+  | nil => intro i h; simp [indexed] at h
+  | cons r t ih =>
+    intro i h
+    simp only [indexed, List.mem_cons] at h
+    rcases h with rfl | h
+    · exact List.mem_cons_self ..
+    · exact List.mem_cons_of_mem _ (ih (i + 1) h)
+
+theorem newEntries_ok {records : List Nsec} {qclass : Nat} {zone : Name} {es : List Entry}
+    (h : newEntries records qclass zone = .ok es) :
+    ∀ e ∈ es, e.r ∈ records ∧ e.r.cls = qclass ∧
+      nameInZone e.r.owner zone = true ∧ nameInZone e.r.next zone = true := by
+  unfold newEntries at h
+  split at h
+  · cases h
+  · intro e he
+    rcases addEntries_ok _ _ _ h e he with h1 | ⟨h1, h2⟩
+    · cases h1
+    · exact ⟨indexed_mem records 0 h1, h2⟩
+
+theorem classify_ok {name : Name} {es : List Entry} {st : NState} {x : Entry}
+    (h : classify name es = .ok (st, x)) :
+    x ∈ es ∧ (∀ e ∈ es, ¬(isStrictSub name e.r.owner = true ∧ cutTypes e.r.types = true)) ∧
+      ((st = .exact ∧ x.r.owner = name) ∨ classifyInterval name x.r = some st) := by
+  unfold classify at h
+  split at h
+  · cases h
+  · rename_i hany
+    have hno : ∀ e ∈ es, ¬(isStrictSub name e.r.owner = true ∧ cutTypes e.r.types = true) := by
+      intro e he ⟨h1, h2⟩
+      apply hany
+      rw [List.any_eq_true]
+      exact ⟨e, he, by rw [cutBitmap_eq, h1, h2]; rfl⟩
+    simp only at h
+    split at h
+    · rename_i x' hex _
+      simp only [Except.ok.injEq, Prod.mk.injEq] at h
+      obtain ⟨rfl, rfl⟩ := h
+      have : x' ∈ es.filter fun e => e.r.owner == name := by rw [hex]; exact List.mem_singleton.mpr rfl
+      rw [List.mem_filter] at this
+      exact ⟨this.1, hno, Or.inl ⟨rfl, by simpa using this.2⟩⟩
+    · rename_i c _ hcov
+      have hc : c ∈ es.filter fun e => e.r.owner != name && (classifyInterval name e.r).isSome := by
+        rw [hcov]; exact List.mem_singleton.mpr rfl
+      rw [List.mem_filter] at hc
+      split at h
+      · rename_i st' hci
+        simp only [Except.ok.injEq, Prod.mk.injEq] at h
+        obtain ⟨rfl, rfl⟩ := h
+        exact ⟨hc.1, hno, Or.inr hci⟩
+      · cases h
+    · cases h
+
+theorem classifyInterval_inGap {z : Zone} (hz : z.WF) {r : Nsec} (g : Genuine z r) {q : Name} {st : NState}
+    (h : classifyInterval q r = some st) :
+    InGap z r.owner r.next q ∧
+      ((st = .ent ∧ isStrictSub r.next q = true) ∨ (st = .absent ∧ isStrictSub r.next q = false)) := by
+  unfold classifyInterval at h
+  split at h
+  · cases h
+  · rename_i h1
+    simp only [Bool.or_eq_true, bne_iff_ne, ne_eq, beq_iff_eq, not_or, Decidable.not_not] at h1
+    have hlt : cmpName r.owner q = .lt := (lawful_cmpName.gt_iff _ _).mp h1.1
+    split at h
+    · cases h
+    · rename_i h2
+      have hnext : cmpName r.owner r.next = .lt → cmpName q r.next = .lt := by
+        intro hon
+        have : cmpName r.next r.owner = .gt := (lawful_cmpName.gt_iff _ _).mpr hon
+        unfold beyondNext at h2
+        simp only [this, if_true, bne_iff_ne, ne_eq, Decidable.not_not] at h2
+        exact h2
+      refine ⟨g.inGap hz hlt hnext, ?_⟩
+      split at h
+      · rename_i h3
+        simp only [Option.some.injEq] at h
+        exact Or.inl ⟨h.symm, h3⟩
+      · rename_i h3
+        simp only [Option.some.injEq] at h
+        exact Or.inr ⟨h.symm, by simpa using h3⟩
+
+theorem validateExact_ok {t : Nat} {b : List Nat} (h : validateAggressiveExactNODATA t b = .ok ()) :
+    t ∉ b ∧ tCNAME ∉ b ∧ (t = tDS → tSOA ∉ b) ∧ (t = tDS ∨ delegTypes b = false) := by
+  unfold validateAggressiveExactNODATA at h
+  split at h
+  · cases h
+  · rename_i h1
+    have h1' := (typesSet_pair_false b t tCNAME).mp (by simpa using h1)
+    split at h
+    · cases h
+    · rename_i h2
+      split at h
+      · cases h
+      · rename_i h3
+        refine ⟨h1'.1, h1'.2, ?_, ?_⟩
+        · intro ht hs
+          apply h2
+          simp only [Bool.and_eq_true, decide_eq_true_eq]
+          exact ⟨ht, (typesSet_iff b [tSOA]).mpr ⟨tSOA, hs, by simp⟩⟩
+        · by_cases ht : t = tDS
+          · exact Or.inl ht
+          · right
+            rw [← aggDeleg_eq]
+            simp only [Bool.and_eq_true, decide_eq_true_eq, not_and, Bool.not_eq_true] at h3
+            exact h3 ht
+
+/-- a name classified ENT/absent by the classifier over genuine records. -/
+theorem classify_gap {z : Zone} (hz : z.WF) {es : List Entry} (hes : ∀ e ∈ es, Genuine z e.r)
+    {name : Name} {st : NState} {x : Entry}
+    (h : classify name es = .ok (st, x)) (hci : classifyInterval name x.r = some st) :
+    InGap z x.r.owner x.r.next name ∧ z.occluded name = false ∧
+      ((st = .ent ∧ isStrictSub x.r.next name = true) ∨ (st = .absent ∧ isStrictSub x.r.next name = false)) := by
+  obtain ⟨hx, hno, _⟩ := classify_ok h
+  obtain ⟨gap, hst⟩ := classifyInterval_inGap hz (hes x hx) hci
+  refine ⟨gap, ?_, hst⟩
+  cases ho : z.occluded name with
+  | false => rfl
+  | true =>
+    exfalso
+    obtain ⟨a, ha, han, hcut, hpre, hne⟩ := gap.occluded hz ho
+    have hty := (hes x hx).types_of_node hz ha han
+    exact hno x hx ⟨(isStrictSub_iff name x.r.owner).mpr ⟨hpre, hne⟩, hty ▸ hcut⟩
+
+theorem classifyInterval_not_exact {name : Name} {r : Nsec} : classifyInterval name r ≠ some .exact := by
+  unfold classifyInterval
+  split
+  · simp
+  · split
+    · simp
+    · split <;> simp
+
+theorem classify_exact_owner {name : Name} {es : List Entry} {x : Entry}
+    (h : classify name es = .ok (.exact, x)) : x ∈ es ∧ x.r.owner = name := by
+  obtain ⟨hx, _, hcase⟩ := classify_ok h
+  rcases hcase with ⟨_, hown⟩ | hci
+  · exact ⟨hx, hown⟩
+  · exact absurd hci classifyInterval_not_exact
+
+theorem classify_ent_gap {z : Zone} (hz : z.WF) {es : List Entry} (hes : ∀ e ∈ es, Genuine z e.r)
+    {name : Name} {x : Entry} (h : classify name es = .ok (.ent, x)) :
+    InGap z x.r.owner x.r.next name ∧ z.occluded name = false ∧ isStrictSub x.r.next name = true := by
+  obtain ⟨_, _, hcase⟩ := classify_ok h
+  have hci : classifyInterval name x.r = some .ent := by
+    rcases hcase with ⟨hst, _⟩ | hci
+    · cases hst
+    · exact hci
+  obtain ⟨gap, hocc, hst⟩ := classify_gap hz hes h hci
+  refine ⟨gap, hocc, ?_⟩
+  rcases hst with ⟨_, hs⟩ | ⟨hst, _⟩
+  · exact hs
+  · cases hst
+
+theorem classify_absent_gap {z : Zone} (hz : z.WF) {es : List Entry} (hes : ∀ e ∈ es, Genuine z e.r)
+    {name : Name} {x : Entry} (h : classify name es = .ok (.absent, x)) :
+    InGap z x.r.owner x.r.next name ∧ z.occluded name = false ∧ isStrictSub x.r.next name = false := by
+  obtain ⟨_, _, hcase⟩ := classify_ok h
+  have hci : classifyInterval name x.r = some .absent := by
+    rcases hcase with ⟨hst, _⟩ | hci
+    · cases hst
+    · exact hci
+  obtain ⟨gap, hocc, hst⟩ := classify_gap hz hes h hci
+  refine ⟨gap, hocc, ?_⟩
+  rcases hst with ⟨hst, _⟩ | ⟨_, hs⟩
+  · cases hst
+  · exact hs
+
+theorem InGap.not_ent {z : Zone} (hz : z.WF) {o n q : Name} (gap : InGap z o n q) (hq : z.apex <+: q)
+    (hsub : isStrictSub n q = false) : z.isENT q = false := by
+  cases he : z.isENT q with
+  | false => rfl
+  | true => rw [(gap.isENT_iff hz hq).mp he] at hsub; cases hsub
+
+/-- **Soundness of `evaluateAggressiveNSECEntries` over genuine records.** -/
+theorem evaluateEntries_sound {z : Zone} (hz : z.WF) {es : List Entry} (hes : ∀ e ∈ es, Genuine z e.r)
+    {q : Name} {t : Nat} (hq : z.apex <+: q) {rc : Rcode} {p : List Nat}
+    (h : evaluateEntries q t z.apex es = .ok (rc, p)) :
+    (rc = .nxdomain → z.answerClass q t = .nxdomain) ∧
+    (rc = .nodata → z.answerClass q t = .nodata ∧ aggressiveNODATAType t = true) := by
+  unfold evaluateEntries at h
+  split at h
+  · cases h
+  · -- exact owner
+    rename_i x hcl
+    obtain ⟨hx, hown⟩ := classify_exact_owner hcl
+    split at h
+    · cases h
+    · rename_i hty
+      split at h
+      · cases h
+      · rename_i hval
+        simp only [Except.ok.injEq, Prod.mk.injEq] at h
+        obtain ⟨rfl, _⟩ := h
+        refine ⟨(fun e => nomatch e), fun _ => ⟨?_, by simpa using hty⟩⟩
+        obtain ⟨h1, h2, h3, h4⟩ := validateExact_ok hval
+        obtain ⟨a, ha, han, hat⟩ := (hes x hx).node
+        have := answerClass_exact_nodata hz ha t (hat ▸ h1) (hat ▸ h2) (fun e => hat ▸ h3 e) (hat ▸ h4)
+        rwa [han, hown] at this
+  · -- empty non-terminal
+    rename_i x hcl
+    obtain ⟨gap, hocc, hsub⟩ := classify_ent_gap hz hes hcl
+    split at h
+    · cases h
+    · rename_i hty
+      simp only [Except.ok.injEq, Prod.mk.injEq] at h
+      obtain ⟨rfl, _⟩ := h
+      refine ⟨(fun e => nomatch e), fun _ => ⟨?_, by simpa using hty⟩⟩
+      exact answerClass_ent z q t hq (gap.ne_apex hz) hocc gap.find_none ((gap.isENT_iff hz hq).mpr hsub)
+  · -- absent: wildcard stage
+    rename_i c hcl
+    obtain ⟨gap, hocc, hsub⟩ := classify_absent_gap hz hes hcl
+    have hent := gap.not_ent hz hq hsub
+    have hqlen : q.length ≠ 0 := by
+      intro e
+      have : q = [] := List.eq_nil_of_length_eq_zero e
+      subst this
+      exact gap.ne_apex hz (List.prefix_nil.mp hq).symm
+    split at h
+    · cases h
+    · rw [closestEncloserFromAggressiveNSEC_eq q c.r hqlen] at h
+      simp only at h
+      split at h
+      · cases h
+      · have hce : z.closestEncloser q = q.take (ceK q c.r.owner c.r.next) := gap.closestEncloser hz hq
+        have hwz : z.apex <+: q.take (ceK q c.r.owner c.r.next) ++ [star] := gap.wild_in_zone hz hq
+        split at h
+        · cases h
+        · -- wildcard owner exists
+          rename_i w hclw
+          obtain ⟨hw, hwown⟩ := classify_exact_owner hclw
+          split at h
+          · cases h
+          · rename_i hty
+            split at h
+            · cases h
+            · split at h
+              · cases h
+              · rename_i hval
+                simp only [Except.ok.injEq, Prod.mk.injEq] at h
+                obtain ⟨rfl, _⟩ := h
+                have hty' : aggressiveNODATAType t = true := by
+                  simp only [Bool.or_eq_true, Bool.not_eq_true', beq_iff_eq, not_or] at hty
+                  simpa using hty.1
+                refine ⟨(fun e => nomatch e), fun _ => ⟨?_, hty'⟩⟩
+                obtain ⟨h1, h2, _, _⟩ := validateExact_ok hval
+                obtain ⟨a, ha, han, hat⟩ := (hes w hw).node
+                have hfw : z.find (z.closestEncloser q ++ [star]) = some a := by
+                  rw [hce, ← hwown, ← han]; exact find_of_mem hz ha
+                rw [answerClass_wild z q t hq (gap.ne_apex hz) hocc gap.find_none hent hfw]
+                exact answerAt_nodata a t (hat ▸ h1) (hat ▸ h2)
+        · -- wildcard is an empty non-terminal
+          rename_i w hclw
+          obtain ⟨gapw, _, hsubw⟩ := classify_ent_gap hz hes hclw
+          split at h
+          · cases h
+          · rename_i hty
+            simp only [Except.ok.injEq, Prod.mk.injEq] at h
+            obtain ⟨rfl, _⟩ := h
+            have hty' : aggressiveNODATAType t = true := by
+              simp only [Bool.or_eq_true, Bool.not_eq_true', beq_iff_eq, not_or] at hty
+              simpa using hty.1
+            refine ⟨(fun e => nomatch e), fun _ => ⟨?_, hty'⟩⟩
+            exact answerClass_wild_ent z q t hq (gap.ne_apex hz) hocc gap.find_none hent
+              (hce ▸ gapw.find_none) (hce ▸ (gapw.isENT_iff hz hwz).mpr hsubw)
+        · -- wildcard absent: NXDOMAIN
+          rename_i w hclw
+          obtain ⟨gapw, _, hsubw⟩ := classify_absent_gap hz hes hclw
+          simp only [Except.ok.injEq, Prod.mk.injEq] at h
+          obtain ⟨rfl, _⟩ := h
+          refine ⟨fun _ => ?_, (fun e => nomatch e)⟩
+          exact answerClass_nxdomain z q t hq (gap.ne_apex hz) hocc gap.find_none hent
+            (hce ▸ gapw.find_none) (hce ▸ gapw.not_ent hz hwz hsubw)
+
+theorem evaluateEntries_has_entry {q : Name} {t : Nat} {signer : Name} {es : List Entry} {v : Rcode × List Nat}
+    (h : evaluateEntries q t signer es = .ok v) : ∃ x, x ∈ es := by
+  unfold evaluateEntries at h
+  split at h
+  · cases h
+  · rename_i x hcl; exact ⟨x, (classify_ok hcl).1⟩
+  · rename_i x hcl; exact ⟨x, (classify_ok hcl).1⟩
+  · rename_i x hcl; exact ⟨x, (classify_ok hcl).1⟩
+
+/-- **`EvaluateAggressiveNSEC` over any selection of the genuine chain plus
+out-of-zone pollution.** -/
+theorem aggressive_core {z : Zone} (hz : z.WF) {s : List Nsec} (hs : SetOK z s) {q : Name} {t qclass : Nat}
+    {rc : Rcode} {p : List Nat} (h : evaluateAggressiveNSEC q t qclass z.apex s = .ok (rc, p)) :
+    qclass = z.cls ∧ z.apex <+: q ∧
+    (rc = .nxdomain → z.answerClass q t = .nxdomain) ∧
+    (rc = .nodata → z.answerClass q t = .nodata ∧ aggressiveNODATAType t = true) := by
+  unfold evaluateAggressiveNSEC at h
+  split at h
+  · cases h
+  · rename_i hvq
+    have hq : z.apex <+: q := by
+      unfold validQuestion at hvq
+      simp only [Bool.not_eq_true, Bool.not_eq_false', Bool.and_eq_true, nameInZone,
+        List.isPrefixOf_iff_prefix] at hvq
+      exact hvq.2
+    split at h
+    · cases h
+    · rename_i es hes
+      have hgen : ∀ e ∈ es, Genuine z e.r := by
+        intro e he
+        obtain ⟨hmem, _, ho, hn⟩ := newEntries_ok hes e he
+        simp only [nameInZone, List.isPrefixOf_iff_prefix] at ho hn
+        rcases hs e.r hmem with h1 | h1
+        · exact chain_genuine hz h1
+        · exact absurd ⟨ho, hn⟩ h1
+      obtain ⟨x, hx⟩ := evaluateEntries_has_entry h
+      have hcls : qclass = z.cls := by
+        rw [← (newEntries_ok hes x hx).2.1]; exact (hgen x hx).cls
+      exact ⟨hcls, hq, evaluateEntries_sound hz hgen hq h⟩
 
 end SdnsVerif.Lemmas.Nsec
